@@ -185,6 +185,40 @@ pub fn canonical_dt(dt: &DateTime) -> Result<(), String> {
     Ok(())
 }
 
+/// `Offset::Local` is an offset too. A version-1 zone file whose offset is `off` from one day
+/// before `now` on and a different one (an hour away) before that: under this file and a clock
+/// pinned to `now`, a value carrying `Offset::Local` has to behave exactly like one carrying
+/// `Fixed(off)` - wherever the value itself lies relative to the zone's transition (Local is
+/// resolved for the current time, C18).
+pub fn local_zone_bytes(off: i32, now: i64) -> Vec<u8> {
+    let other = if off + 3_600 <= 86_399 { off + 3_600 } else { off - 3_600 };
+    crate::tzsyn::Synth {
+        version: 1,
+        types: vec![(other, true), (off, false)],
+        transitions: vec![(i32::MIN as i64, 0), ((now - 86_400).clamp(i32::MIN as i64 + 1, i32::MAX as i64), 1)],
+        v1_populated: true,
+        footer: None,
+        indicators: false,
+        leaps: 0,
+    }
+    .build()
+}
+
+/// clock values usable with `local_zone_bytes` (the transition has to fit a 32-bit table)
+pub fn local_now_ok(now: i64) -> bool {
+    (-2_000_000_000..=2_100_000_000).contains(&now) && now != 0
+}
+
+pub fn pin_local(off: i32, now: i64) {
+    astrolabe::verif::set_localtime(Some(Ok(local_zone_bytes(off, now))));
+    astrolabe::verif::set_now(Some(DateTime::from_timestamp(now)));
+}
+
+pub fn unpin_local() {
+    astrolabe::verif::set_localtime(None);
+    astrolabe::verif::set_now(None);
+}
+
 pub fn off_of_dt(dt: &DateTime) -> Offset {
     dt.get_offset()
 }
